@@ -154,6 +154,7 @@ class Executor:
         self.target = None
         self.depth = 0
         self.cancel_at = None
+        self.byte_facts = set()
         self.lib = None                # set by lib.install
         from . import lib
         lib.install(self)
@@ -241,11 +242,11 @@ class Executor:
             if v.ty == INT:
                 return self.fork(v.t != 0, note)
             if v.ty == BYTES:
-                return self.fork(z3.Length(v.t) > 0, note)
+                return self.fork(ops.b_len(v.t) > 0, note)
             if v.ty == REAL:
                 return self.fork(v.t != 0, note)
         if isinstance(v, MutBytes):
-            return self.fork(z3.Length(v.t) > 0, note)
+            return self.fork(ops.b_len(v.t) > 0, note)
         if isinstance(v, PList):
             return len(v.items) > 0
         if isinstance(v, PDict):
@@ -270,7 +271,7 @@ class Executor:
             if v.ty == INT:
                 return v.t != 0
             if v.ty == BYTES:
-                return z3.Length(v.t) > 0
+                return ops.b_len(v.t) > 0
         if isinstance(v, int):
             return z3.BoolVal(v != 0)
         if v is None:
@@ -617,7 +618,7 @@ class Executor:
                 except StopIteration:
                     return out
         if isinstance(v, Sym) and v.ty == BYTES:
-            n = concrete_int(z3.Length(v.t))
+            n = concrete_int(ops.b_len(v.t))
             if n is not None:
                 return [ops.bindex(self, v, i) for i in range(n)]
         from .values import SymTuple
@@ -785,7 +786,7 @@ class Executor:
                 return mk_bool(z3.If(t, lift_bool(a), lift_bool(b)))
             return mk_int(z3.If(t, lift_int(a), lift_int(b)))
         if is_byteslike(a) and is_byteslike(b):
-            return mk_bytes(z3.If(t, lift_bytes(a), lift_bytes(b)))
+            return Sym(z3.If(t, lift_bytes(a), lift_bytes(b)), BYTES)
         if isinstance(a, tuple) and isinstance(b, tuple) and len(a) == len(b):
             return tuple(self.ite(t, x, y) for x, y in zip(a, b))
         if (isinstance(a, SymEnum) or isinstance(a, enum.Enum)) and \
